@@ -32,9 +32,13 @@ func init() {
 			"item obtained from the map must be under the same condition (else nil dereference); (R2) every map delete / insert is paired inside the same critical section with " +
 			"the matching size adjustment of the same item, Clear resets items, list and size together; (R3) eviction takes listFirst, appends go after listLast, Get re-links on hit, " +
 			"each victim is deleted once and OnDelete is called once with its key and value; (R4) OnDelete runs with the lock released and no value read from guarded state before an " +
-			"unlock window is used after the lock is re-taken; (R5) refusing Set paths write nothing, Set returns the comma-ok of its own key's lookup, Get counts exactly one hit or miss. " +
-			"Not decided: LRU order and latest-Set-wins as relations over whole histories; the size/count bound as an arithmetic invariant.",
-		Technique: "CFG/SSA pattern rules: guard-consistency typestate, event pairing inside lock regions, stale-value-across-unlock dataflow, path event counting",
+			"unlock window is used after the lock is re-taken; (R5) refusing Set paths write nothing, Set returns the comma-ok of its own key's lookup, Get counts exactly one hit or miss; " +
+			"(R6) the bounds as an inductive invariant: size <= MaxSize and len(items) <= MaxCount are assumed at every acquisition of the mutex (size and count otherwise arbitrary: other " +
+			"and re-entrant calls ran in between) and proved, by the relational abstract interpreter, at every release in Set, Del and Clear, including the release in front of the OnDelete " +
+			"window; newCache establishes MaxSize >= 1, MaxCount >= 1, MaxElementSize <= MaxSize; (R7) Set's refuse / evict / store decision as a table over its four tests; the six list " +
+			"primitives have the effect of a circular doubly linked list (symbolic heap evaluation). " +
+			"Not decided: LRU order and latest-Set-wins as relations over whole histories.",
+		Technique: "linear-constraint abstract interpretation (inductive invariant of the critical sections) + CFG/SSA rules: guard-consistency typestate, event pairing inside lock regions, stale-value-across-unlock dataflow, path event counting, decision tables, symbolic heap evaluation",
 		Note:      "Trusted: go/ssa. The invariant 'with LRU every mapped item is linked and the list is non-empty whenever the eviction loop runs' is assumed (argued in DESIGN.md).",
 		DesignRef: "DESIGN.md section 4, C09",
 		Run:       runC09,
